@@ -197,13 +197,15 @@ PROPS.update({
         claim='Safe mode: unbounded proof that each emission is exactly one well-formed opcode under the CPython table (known byte, complete argument, length prefix == payload length, '
               'EXT codes >= 1 under the signed reader, memo index non-negative) and that the output is header + these chunks + collapse tail + one final STOP. '
               'Text arguments (decimal / float / quoted / newline-terminated lines) rest on assumed facts about format! and the escaping chain, stated as shim specs. '
-              'Unsafe mode: the type-confusion rewrite replaces a whole emission by one complete value-pushing opcode (Kani, bounded; thorough tier).',
+              'Unsafe mode (any mutator set, any rate): the same emitter bodies are verified a second time against a contract that does not need the simulation to agree with the '
+              'bytes (emit_and_process_u, emit_*_u, generate_internal_u): every emission is nothing or exactly one well-formed opcode, also after a type-confusion rewrite, and the '
+              'output is header + chunks + tail + STOP.',
         note=_NOTE + ' text_ok(class, bytes) is an uninterpreted predicate established only by the assumed specs of the formatting shims (format!("{}\\n"), the STRING escape chain, '
              'f64 Display); that each chunk decodes to exactly its opcode and that concatenated chunks decode to the concatenated trace is the (unproved) framing argument. '
-             'Unsafe-mode composition (rewrites happen before the FRAME patch, memo-index mutations stay encodable) is by inspection.',
+             'Unsafe mode rests on the contract of post_process_emission (only TypeConfusionMutator overrides post_process; its contract is proved in unit mutv).',
         assumptions=_CORE_ASSUME + ['format!/escape facts: decimal text of an integer parses back; f64 Display is accepted by Python float(); the STRING escape chain yields a valid quoted literal; '
                                     'a printable-ASCII line contains no inner newline (text_ok is established only through these assumed specs)',
-                                    'unsafe mode: only the rewrite itself is machine-checked (Kani, bounded)']),
+                                    'post_process_emission: at most a type-confusion rewrite of the current emission (dyn dispatch over the registered built-in mutators is assumed)']),
     'C05': dict(
         title='Only opcodes of the requested protocol, right header', verus=['core'], kani_quick=U7, level='proof',
         technique='Verus contracts: candidate set within the protocol table, emitted opcode in the chosen family and protocol, collapse-phase opcodes in protocol, PROTO header clause of generate_internal',
@@ -214,8 +216,9 @@ PROPS.update({
         title='FRAME unique, leads the body, spans exactly the rest', verus=['core', 'mutv'], kani_quick=U0, kani_thorough=U8_THOROUGH, level='proof',
         technique='Verus contract on generate_internal (FRAME back-patch arithmetic and position), can_emit(Frame)=false, unreachable Frame emitter arm; Kani frame clause of the type-confusion rewrite',
         claim='Safe mode: proof that FRAME occurs only for P >= 4, at byte offset 2, with length == total length - 11, and that no body/tail opcode is FRAME. '
-              'Unsafe mode: the rewrite never touches bytes before the current emission (Kani, bounded) and the length is patched after all rewrites.',
-        note=_NOTE + ' The unsafe-mode half rests on the Kani frame clause plus inspection of generate_internal (its Verus contract requires safe mode).',
+              'Any mode incl. unsafe mutations: generate_internal_u proves the same FRAME clauses with the emitters\' any-mode contracts (rewrites never touch bytes before the '
+              'current emission; the length is patched after all of them).',
+        note=_NOTE + ' Unsafe mode rests on the contract of post_process_emission (proved for TypeConfusionMutator in unit mutv).',
         assumptions=_CORE_ASSUME),
     'C07': dict(
         title='Generation is a pure function of configuration and entropy input', verus=['core'], scans=['purity'], level='proof',
@@ -237,13 +240,15 @@ PROPS.update({
     'C09': dict(
         title='Generation is total', verus=['core'], kani_quick=U8_QUICK + U9_QUICK, level='proof',
         technique='Verus exec-safety obligations (overflow, index bounds, unwrap) and decreases clauses on every loop of the functions under contract, generate_internal returns Ok; Kani panic/overflow checks on mutators and entropy adapters',
-        claim='Proof of panic-freedom, termination and Ok result for the functions under contract, for all inputs.',
+        claim='Proof of panic-freedom, termination and Ok result for the functions under contract, for all inputs and in every mode: process_stack_ops, cleanup_for_stop and the '
+              'emitters are verified for ANY simulated state (unsafe mutations let the simulation drift), generate_internal_u returns Ok for every configuration.',
         note=_NOTE + ' Not covered: RefCell borrow-flag panics, allocation failure, native stack depth of recursive Drop, string mutators, text emitters (format!).',
         assumptions=_CORE_ASSUME + ['RefCell borrow flags, allocation failure and native stack overflow of recursive drop are not modelled']),
     'C10': dict(
         title='EXT and buffer opcodes only when enabled', verus=['core', 'mutv'], kani_thorough=U8_THOROUGH, level='proof',
         technique='Verus contracts: can_emit flag clauses, emitted opcode in the chosen family (flags_ok), collapse-phase opcode set, generate_internal trace clause; Kani: type-confusion replacement is never EXT/buffer',
-        claim='Proof that no opcode recorded in the trace is EXT*/NEXT_BUFFER/READONLY_BUFFER unless the corresponding flag is set.',
+        claim='Proof that no opcode recorded in the trace (safe mode) and no chunk appended in any mode (incl. type-confusion replacements) is EXT*/NEXT_BUFFER/READONLY_BUFFER '
+              'unless the corresponding flag is set.',
         note=_NOTE, assumptions=_CORE_ASSUME),
     'C11': dict(
         title='Opcode-count knobs bound the program size', verus=['core', 'mutv'], level='proof',
